@@ -209,6 +209,7 @@ func init() {
 	registerBytealg()
 	registerTime()
 	registerMisc()
+	registerReflect()
 }
 
 func (i *Interp) boolArg(v value, what string) *smt.Term {
